@@ -1,0 +1,9 @@
+//go:build verif
+
+// Contracts for package federation, read by /verif/engine (govc). Comment-only.
+package federation
+
+// The planner and the executor-client map are replaced / written by the background schema poll
+// (setPlanner) while requests are executing, so every access needs the syncer's planner lock.
+//@ guarded_by Executor.syncer.plannerMu: Executors
+//@ guarded_by Syncer.plannerMu: planner
